@@ -66,7 +66,10 @@ func NewConfig(cfg *telemetry.UploadConfig) *Config {
 		for _, c := range p.Counters {
 			for _, e := range Expand(c.Name) {
 				ucfg.pgcounter[pgkey{p.Name, e}] = true
-				ucfg.rate[pgkey{p.Name, e}] = c.Rate
+				// A name listed more than once keeps its highest rate.
+				if r, ok := ucfg.rate[pgkey{p.Name, e}]; !ok || c.Rate > r {
+					ucfg.rate[pgkey{p.Name, e}] = c.Rate
+				}
 			}
 			prefix, _, found := strings.Cut(c.Name, ":")
 			if found {
@@ -75,11 +78,13 @@ func NewConfig(cfg *telemetry.UploadConfig) *Config {
 		}
 		for _, s := range p.Stacks {
 			ucfg.pgstack[pgkey{p.Name, s.Name}] = true
-			ucfg.stackrate[pgkey{p.Name, s.Name}] = s.Rate
+			if r, ok := ucfg.stackrate[pgkey{p.Name, s.Name}]; !ok || s.Rate > r {
+				ucfg.stackrate[pgkey{p.Name, s.Name}] = s.Rate
+			}
 			if _, isCounter := ucfg.pgcounter[pgkey{p.Name, s.Name}]; !isCounter {
 				// Rate also answers for stacks, for existing callers; a counter
 				// of the same name keeps its own rate.
-				ucfg.rate[pgkey{p.Name, s.Name}] = s.Rate
+				ucfg.rate[pgkey{p.Name, s.Name}] = ucfg.stackrate[pgkey{p.Name, s.Name}]
 			}
 		}
 	}
